@@ -273,6 +273,21 @@ def eval_int(t):
     if k == "unop" and t[1] == "Neg":
         v = eval_int(t[2])
         return None if v is None else -v
+    if k == "call" and len(t) >= 3:
+        last = t[1].split("::")[-1]
+        if last in ("abs_diff", "min", "max", "abs", "pow") and 1 <= len(t[2]) <= 2:
+            vs = [eval_int(a) for a in t[2]]
+            if any(v is None for v in vs):
+                return None
+            if last == "abs_diff" and len(vs) == 2:
+                return abs(vs[0] - vs[1])
+            if last == "min" and len(vs) == 2:
+                return min(vs)
+            if last == "max" and len(vs) == 2:
+                return max(vs)
+            if last == "abs" and len(vs) == 1:
+                return abs(vs[0])
+        return None
     if k == "binop":
         a, b = eval_int(t[2]), eval_int(t[3])
         if a is None or b is None:
@@ -1051,3 +1066,8 @@ def paths_to(body, start, targets, stop=(), g=None, limit=200):
             dfs(nx, seen | {nx}, atoms + ea)
     dfs(start, {start}, [])
     return out
+
+
+def is_ovf_atom(atom):
+    """an atom about the overflow flag of a checked arithmetic operation (`(a + b).1`): says nothing about the values in range"""
+    return any(isinstance(y, tuple) and contains(y, lambda s_: s_[0] == "field" and str(s_[2]) == "1" and s_[1][0] == "binop" and s_[1][1].endswith("WithOverflow")) for y in atom[1:])
